@@ -221,10 +221,16 @@ class Wallet:
         return False
 
     async def unlock(self, password):
+        unlocked = []
         for account in self.accounts:
             if account.encrypted:
                 if not account.decrypt(password):
+                    # a wrong password must leave the wallet as it was: lock again what this call unlocked
+                    # (an account without secrets "decrypts" with any password)
+                    for done in unlocked:
+                        done.encrypt(password)
                     return False
+                unlocked.append(account)
                 await account.deterministic_channel_keys.ensure_cache_primed()
         self.encryption_password = password
         return True
